@@ -140,7 +140,10 @@ func CheckDAG(c *core.Ctx, d *lref.DAG, desc string, rep Report, cfg Config, max
 		}
 		obs := node.Observe(name, ids, maxFrame+1)
 		if prev, ok := table[nm]; ok {
-			if prev.obs != obs {
+			if prev.obs != obs && byz {
+				// forkers hold >= 1/3 of the weight: outside the precondition of the agreement properties
+				c.Count("byzantine_order_differences_not_judged", 1)
+			} else if prev.obs != obs {
 				violate("order", "order/state-depends-on-order", map[string]interface{}{"dag": d.String(), "family": desc, "order_a": prev.path, "order_b": seq},
 					"the same event set %v processed in orders %v and %v yields different observations:\n  A: %s\n  B: %s\n  dag: %s", maskList(nm), prev.path, seq, prev.obs, obs, d.String())
 				return false
@@ -230,8 +233,9 @@ func CheckDAG(c *core.Ctx, d *lref.DAG, desc string, rep Report, cfg Config, max
 
 // ConsFamilies describes what ExploreConsensus enumerates for a tier.
 type ConsFamilies struct {
-	All    []GenCfg
-	Rounds []RoundCfg
+	All      []GenCfg
+	Rounds   []RoundCfg
+	Sleepers []SleeperCfg
 }
 
 // OnlyForks drops every family without fork events (used by the cheater-list check).
@@ -247,6 +251,11 @@ func (f ConsFamilies) OnlyForks() ConsFamilies {
 			g.Rounds = append(g.Rounds, r)
 		}
 	}
+	for _, sl := range f.Sleepers {
+		if sl.Forks {
+			g.Sleepers = append(g.Sleepers, sl)
+		}
+	}
 	return g
 }
 
@@ -260,6 +269,7 @@ func (f ConsFamilies) Light() ConsFamilies {
 		}
 		g.Rounds = append(g.Rounds, r)
 	}
+	g.Sleepers = f.Sleepers
 	return g
 }
 
@@ -286,6 +296,10 @@ func DefaultConsFamilies(quick bool, byzantine bool) ConsFamilies {
 			// an early lag and then enough rounds to decide the frames the returning (frame-jumping) root belongs to
 			{W: WV(1, 1, 1, 1), Epoch: 1, R: 12, Dev: 1, Lags: true, MaxLag: 4, DevRounds: 3},
 			{W: WV(1, 1, 1, 1), Epoch: 1, R: 12, Dev: 1, Lags: true, MaxLag: 4, DevRounds: 3, Sequential: true},
+		}
+		// a validator that sleeps and returns with arbitrarily stale knowledge, with and without an initial fork
+		f.Sleepers = []SleeperCfg{
+			{W: WV(1, 1, 1, 1), Epoch: 1, MinSleep: 3, MaxSleep: 5, Tail: 5, Forks: true, Rots: 1},
 		}
 		if byzantine {
 			all(WV(1, 1, 1), 5, 2, false)
@@ -354,6 +368,17 @@ func ExploreConsensus(c *core.Ctx, fam ConsFamilies, rep Report) {
 			item++
 			CheckDAG(c, d, fmt.Sprintf("F-round weights=%v R=%d %s", r.W.W, r.R, desc), rep, cfgs[item%len(cfgs)], 50000)
 			if item%301 == 1 {
+				c.Sample(map[string]interface{}{"dag": d.String(), "family": desc, "parents_first_orders": CountOrders(d, 200000)})
+			}
+		})
+	}
+	for _, sl := range fam.Sleepers {
+		sl := sl
+		GenSleeper(sl, func(i int) bool { return c.Mine(i) && !c.OutOfBudget() }, func(d *lref.DAG, desc string) {
+			item++
+			c.Count("sleeper_family_dags", 1)
+			CheckDAG(c, d, fmt.Sprintf("F-sleeper weights=%v %s", sl.W.W, desc), rep, cfgs[item%len(cfgs)], 50000)
+			if item%1501 == 1 {
 				c.Sample(map[string]interface{}{"dag": d.String(), "family": desc, "parents_first_orders": CountOrders(d, 200000)})
 			}
 		})
